@@ -326,6 +326,45 @@ int main(int argc, char** argv) {
       malformed_cases(r, g, thorough ? 4 : 2);
     }
   }
+  // ---- concurrent phase: permuteDimensions works on its own table only, so permutations of DIFFERENT tables running at the
+  // same time must each give what they give alone (the model is a function of table and argument).  Four tables large
+  // enough for the calls to overlap, each permuted by a non-involutive permutation and back by its inverse, several
+  // rounds, by four threads started together; every state is compared with the one the same call produced alone.
+  {
+    const int NT = 4, ROUNDS = thorough ? 12 : 5;
+    std::vector<Gen> gs; std::vector<std::vector<size_t>> ps, inv;
+    std::vector<std::string> after_p(NT), after_q(NT);
+    for (int k = 0; k < NT; k++) {
+      uint32_t nd = 3 + (k % 2);
+      Gen g = gen_table(r, nd, 0, 1500);
+      // blow the table up: many more knots per axis (about 30000..120000 coefficients)
+      g.kn.clear(); uint64_t prod = 1;
+      for (uint32_t i = 0; i < nd; i++) { int extra = (int)(nd == 3 ? 30 + r.below(15) : 12 + r.below(6)); g.kn.push_back(gen_knots(r, g.ord[i], extra, 1)); prod *= g.ord[i] + 1 + extra; }
+      g.coef.resize(prod); for (auto& c : g.coef) c = (float)(r.unit() * 2 - 1);
+      g.ext.clear();
+      gs.push_back(g);
+      std::vector<size_t> p(nd); for (uint32_t i = 0; i < nd; i++) p[i] = (i + 1 + (k / 2)) % nd;   // a rotation: not its own inverse
+      std::vector<size_t> q(nd); for (uint32_t i = 0; i < nd; i++) q[p[i]] = i;
+      ps.push_back(p); inv.push_back(q);
+      Table t; make_table(t, g); PtrMap pm = ptrmap(t);
+      t.permuteDimensions(p); after_p[k] = dump(t, pm, prod);
+      t.permuteDimensions(q); after_q[k] = dump(t, pm, prod);
+      stats["concurrent_table_ncoef_total"] += prod;
+    }
+    std::vector<int> bad(NT, 0);
+    int rc = run_concurrently(NT, 120,
+      [&](int k) {
+        for (int round = 0; round < ROUNDS; round++) {
+          Table t; make_table(t, gs[k]); PtrMap pm = ptrmap(t);
+          try { t.permuteDimensions(ps[k]); if (dump(t, pm, gs[k].coef.size()) != after_p[k]) bad[k]++;
+                t.permuteDimensions(inv[k]); if (dump(t, pm, gs[k].coef.size()) != after_q[k]) bad[k]++; }
+          catch (std::exception&) { bad[k]++; }
+        }
+      },
+      [&]() { int n = 0; for (int b : bad) n += b; return n > 100 ? 100 : n; });
+    stats["concurrent_threads"] = NT; stats["concurrent_permute_calls"] = 2 * NT * ROUNDS;
+    stats["concurrent_outcome"] = rc;   // 0 = every state equal to the sequential one; > 0 = number of differing states; < 0 = -signal (crash / hang)
+  }
   fclose(fc); fclose(fi); fclose(fe);
   FILE* fs = fopen(argv[5], "w");
   fprintf(fs, "{");
